@@ -107,6 +107,7 @@ class Instrumented:
         g["_vc_comp"] = loops.vc_comp
         g["_vc_loop"] = loops.vc_loop
         g["_vc_get"] = loops.vc_get
+        g["_vc_LoopReturn"] = loops.LoopReturn
         self.modules[name] = mod
         self.rewrites[name] = dict(rw.counts)
         self.loops.update(rw.loops)
